@@ -16,7 +16,7 @@ ASSUMPTIONS = [
     "permitted outcomes: a Unit / Quantity, ParseError (the shipped parser's LarkError) or KeyError",
     "Unit._known may legitimately grow on accepted input; names and symbols of Unit, Prefix and Dimension may not change at all",
 ]
-SHARDS = {"quick": 2, "thorough": 14}
+SHARDS = {"quick": 4, "thorough": 14}
 FLOAT_RE = re.compile(r"^\s*((?:\+|\-)?(?:[0-9]+(?:e|E)(?:\+|\-)?[0-9]+|(?:[0-9]+\.(?:[0-9]+)?|\.[0-9]+)(?:(?:e|E)(?:\+|\-)?[0-9]+)?))")
 INT_RE = re.compile(r"^\s*((?:\+|\-)?[0-9]+)")
 
@@ -115,7 +115,7 @@ def run(ctx):
         for s in rng.sample(symbols, min(60, len(symbols))):
             one(s, "registered_symbol")
             one("7 " + s, "registered_symbol")
-    n = ctx.scale(60000, 10_000_000) // 2
+    n = ctx.scale(120000, 10_000_000) // 2
     for i in range(n):
         text, kind = gen.any_text()
         one(text, kind)
